@@ -62,7 +62,9 @@ def gen_params(rng, tier):
     pts = sorted(set(edges + [e + 0.125 for e in edges] + [e - 0.125 for e in edges]))
     xs = []
     for _ in range(rng.randint(0, 14)):
-        x = rng.choice(pts) if rng.random() < 0.8 else rng.choice([float("nan"), float("inf"), float("-inf")])
+        # +-inf saturates the SparselyBin index at +-2**63: its full-range views would enumerate 1.8e19 bins
+        specials = [float("nan")] if kind == "SparselyBin" else [float("nan"), float("inf"), float("-inf")]
+        x = rng.choice(pts) if rng.random() < 0.8 else rng.choice(specials)
         xs.append([x, rng.randint(-8, 8) / 4.0, rng.choice([1.0, 1.0, 2.0, 0.5])])
     finite = [p for p in pts]
     queries = [[None, None]]
@@ -70,8 +72,19 @@ def gen_params(rng, tier):
         a, b = sorted(rng.sample(finite, 2)) if len(finite) >= 2 else (finite[0], finite[0] + 1)
         r = rng.random()
         queries.append([a, b] if r < 0.7 else ([a, None] if r < 0.85 else [None, b]))
+    # bounds within numpy.isclose distance of an edge (implementation-only: the exact model does not
+    # predict isclose semantics) — the views must still be mutually consistent on dyadic configurations
+    near = []
+    if kind == "Bin":
+        # interior edges only: a bound within isclose distance of the lowest edge is known finding C13-bin-near-edge
+        inner = [e for e in edges[1:-1]]
+        for _ in range(3 if inner else 0):
+            e = rng.choice(inner)
+            hi = e + abs(e) * 2e-7 + 6e-9 if rng.random() < 0.7 else e - abs(e) * 2e-7 - 6e-9
+            if hi > edges[0]:
+                near.append([None if rng.random() < 0.5 else edges[0], hi])
     xvals = [rng.choice(finite) for _ in range(6)]
-    return {"spec": spec, "xs": xs, "queries": queries, "xvals": xvals, "seed2d": rng.randint(0, 10**9), "edges": edges}
+    return {"spec": spec, "xs": xs, "queries": queries, "near": near, "xvals": xvals, "seed2d": rng.randint(0, 10**9), "edges": edges}
 
 
 def rows_of(p):
@@ -126,11 +139,14 @@ class C13Exec(execs.PyExec):
         k = spec["k"]
         msgs = self.msgs
         filled = k != "SparselyBin" or len(h.bins) > 0
-        for low, high in p["queries"]:
+        for qi, (low, high) in enumerate(list(p["queries"]) + list(p.get("near", []))):
+            is_near = qi >= len(p["queries"])
             if not inside_domain(spec, low, high):
                 continue
             if k == "SparselyBin" and not filled:
                 continue
+            if k == "SparselyBin" and ((low is not None and low >= h.high) or (high is not None and high <= h.low)):
+                continue   # the query does not overlap the filled (binned) domain: outside the claim
             kw = {}
             if low is not None:
                 kw["low"] = low
@@ -168,7 +184,8 @@ class C13Exec(execs.PyExec):
                         msgs.append("%s%r: bin_entries says %r for the bin [%r, %r) but bin_entries(xvalues=[%r]) says %r"
                                     % (k, q, ent[i], edg[i], edg[i + 1], mid, got))
                         break
-            self.queries.append(("view", k, low, high, {"numbins": nb, "entries": ent, "centers": cen, "edges": edg}))
+            if not is_near:
+                self.queries.append(("view", k, low, high, {"numbins": nb, "entries": ent, "centers": cen, "edges": edg}))
         # a datum filled at x is reported in the bin whose edges contain x
         for x in p["xvals"]:
             before = arr(h.bin_entries(xvalues=[x]))[0]
